@@ -13,6 +13,7 @@ TECHNIQUE = 'runtime monitor: LR reduction trace + error-callback recorder, chec
 RULE = ('cases = corpus + templates (all statement kinds) x 3 dialects, token-level mutations (delete/dup/replace/insert/'
         'truncate/garbage prefix|suffix|infix/statement concatenation/unbalanced parens), token soups, unicode noise; '
         'non-trivial = accepted input whose certificate was checked; distinct by reduction trace')
+RULE += '; also: between consecutive tokens only blanks and complete comments may stand (hand scanner), comment sandwiches, long error tails, grammar-derived sentences'
 ASSUMPTIONS = ['token sequence is the library lexer\'s (lexical correctness is C04)',
                'Parser._grammar.Productions is the grammar the tables were built from',
                'SLY calls Production.func for every reduction (sly/yacc.py parse loop)']
